@@ -344,6 +344,11 @@ def run_case(case):
         # ---- reverse mode
         try:
             vjp, val = make_vjp(f, args[a])
+            from autograd.tracer import isbox as _isbox
+            leak = _isbox(val) or (isinstance(val, onp.ndarray) and val.dtype == object and any(_isbox(e) for e in val.ravel()))
+            out.append(("X-notracer", not leak, "the primal value handed back contains no tracer object" if not leak else f"primal output {type(val).__name__} contains tracer objects"))
+            if leak:
+                raise S.SymLimit("tracer leak")
             ve = H.entries(val)
             okv = H.shape_of(val) == oshape and len(ve) == len(pe) and all(same(x, y) for x, y in zip(ve, pe))
             out.append(("X-value", okv, f"primal under tracing: shape {H.shape_of(val)} vs plain {oshape}" + ("" if okv else f"; values {ve[:4]} vs {pe[:4]}")))
@@ -464,7 +469,7 @@ def _worker(case):
 
 
 CLAUSE_PROPS = {
-    "C01": ("X-vjp", "X-shape"), "C02": ("X-jvp", "X-jvp-shape"), "C04": ("X-vjp", "X-jvp"), "C05": ("X-shape", "X-jvp-shape"), "C06": ("X-value", "X-numpy"),
+    "C01": ("X-vjp", "X-shape"), "C02": ("X-jvp", "X-jvp-shape"), "C04": ("X-vjp", "X-jvp"), "C05": ("X-shape", "X-jvp-shape"), "C06": ("X-value", "X-numpy", "X-notracer"),
     "C07": ("X-hess",), "C10": ("X-reuse", "X-frozen"), "C11": ("X-vjp", "X-jvp", "X-shape", "X-hess"),
 }
 
